@@ -42,6 +42,7 @@ var All = map[string]func(*Ctx){
 		c.secretEntropy("C02.entropy")
 		c.totpValidateDefaults("C02.totp-window")
 		c.perInstanceWiring("C02.per-instance")
+		c.pendingPIDVerbatim("C02.pending-verbatim")
 		c.compareWhole("C02.compare-whole", exactPkgs("ab/otp/twofactor/sms2fa", "ab/otp/twofactor/totp2fa"))
 	}),
 	"C03": seq(C03, func(c *Ctx) {
@@ -51,6 +52,7 @@ var All = map[string]func(*Ctx){
 		c.utcInstants("C03.clock")
 	}),
 	"C04": seq(C04, func(c *Ctx) {
+		c.statusFailureReported("C04.status-report")
 		c.vetoOnlyAfterCheck("C04.veto-after-check")
 		c.lockEnforced("C04.lock-enforced")
 		c.hasherPassThrough()
@@ -167,6 +169,7 @@ var All = map[string]func(*Ctx){
 		c.recoverStartQuiet("C16.recover-quiet")
 		c.loginLooksUpFirst("C16.lookup-first")
 		c.recoverStartNoOwnVerdict("C16.recover-own-error")
+		c.recoverStartOneAnswer("C16.recover-one-answer")
 		if uls := c.P.FuncOpt("(*ab/lock.Lock).updateLockedState"); uls != nil {
 			c.lockEveryAttempt("C16.every-attempt", uls)
 		}
